@@ -10,6 +10,14 @@ CHECKS = {
    text="every struct case of a bounded grammar (shape x counterpart form x per-member instruction menu x ghosts x update x index permutations) is rendered semantics-first, compiled through the real #[derive(o2o::o2o)] by rustc and executed for all 12 conversion kinds and 2 value assignments; every destination leaf is compared with the reference model's expected literal",
    note="member count <= 3 (4 with the reduced menu); leaves are i32/i64; model M_sem transcribed from README; known defects of the pinned tree are listed in known_findings.json by cell-level tag predicates",
    technique=TECH_X + " + reference-model conformance through rustc and execution"),
+ "C02": dict(level="model_checking", design="DESIGN.md §8 C02",
+   text="every enum case of a bounded grammar (1-3 variants x shape x 8-entry variant menu incl. ghost variants, type hints, variant ghosts, variant expressions x payload-field menu x enum-level ghosts in all three forms x default case) rendered semantics-first, compiled through the real derive by rustc and executed: every variant of the source type x 2 payload assignments x the 8 From/Into kinds compared with the model's expected destination",
+   note="payload leaves are i32; by-reference kinds use the documented `*~` form; into_existing on enums is outside C02's quantifier",
+   technique=TECH_X + " + reference-model conformance through rustc and execution"),
+ "C03": dict(level="model_checking", design="DESIGN.md §8 C03",
+   text="child direction: every prefix-closed subset of a path universe with prefix-colliding sibling names x 2-4 flat members assigned to nodes x leaf instructions x path-addressed ghosts (incl. ghost-only nodes) x EVERY permutation of the flat members; parameterised #[parent] with nested typed sub-paths in every permutation; bare #[parent] layouts - compiled through the real derive and executed for all 12 kinds, results compared leaf by leaf with the model",
+   note="all nodes are named structs, leaves i32, deviation-bounded exploration (bound recorded in evidence)",
+   technique=TECH_X + " + reference-model conformance through rustc and execution"),
  "C04": dict(level="model_checking", design="DESIGN.md §8 C04",
    text="every multiset of <= 3 of the 24 trait-instruction names over 1-2 counterparts in every order x 6 counterpart type forms x 4 error type forms x struct|enum: the multiset of generated impl headers (trait path, Self, argument, type Error), read through a real parser, must equal the reference tables M_appl o M_hdr transcribed from README:190-264",
    note="headers only (bodies are C01-C03); T::<X> and T<X> are the same type; in-process expansion (fallback lexer, syn 1)",
@@ -30,6 +38,10 @@ CHECKS = {
    text="every accepted two-counterpart input of the feature-interaction corpus: for each counterpart X the impls whose trait argument is X must be token-identical to the complete expansion of the projected input (all instructions for / dedicated to the other counterpart deleted) - the implementation is its own reference",
    note="impls are attributed to a counterpart by the trait's type argument; bounded: <= 3 members, 2 counterparts, deviation bound 4 (quick) / 6 (thorough)",
    technique=TECH_X + " with a metamorphic (projection) oracle"),
+ "C10": dict(level="model_checking", design="DESIGN.md §8 C10",
+   text="every token tree over an 18-atom alphabet (incl. literals containing ~ and @, lifetimes, joint punctuation, closures, macros, turbofish) with (), [], {}, None-delimited groups up to the stated length/depth in each of 24 accepting positions: an independent substitution over the flattened atom list must occur as a contiguous subsequence of every impl the instruction applies to, and the marker must be absent from the impls it does not apply to",
+   note="`~` only where the README allows it; what `~` stands for per position transcribed from README 'Inline expressions' and the statement; in-process expansion with real proc_macro2 groups",
+   technique=TECH_X + " + comparison with an independent substitution model"),
  "C12": dict(level="exploration", design="DESIGN.md §8 C12",
    text="every input of the host corpus x every non-empty subset (bounded) of its shortcut occurrences rewritten to the documented basic instructions: multiset of generated impl items and accept/reject decision must be identical",
    note="token-level comparison; rewrite-deviation bound 2 (quick) / 3 (thorough) on top of the corpus bound",
@@ -54,6 +66,10 @@ CHECKS = {
    text="bounded exhaustive enumeration of derive inputs (token soup per instruction, all pairs/triples of a 90-entry instruction catalogue over all holes of 4 hosts, all single-token mutations) run through the real derive under catch_unwind; no sampling",
    note="inputs lexed by proc_macro2's fallback lexer + syn 1 default features (the production path minus rustc's lexer); bounds: argument length <= 3 tokens, <= 3 instructions per input; panics already present on the pinned tree are listed in known_findings.json by (panic site, minimal cause class)",
    technique=TECH_X),
+ "C20": dict(level="exploration", design="DESIGN.md §8 C20",
+   text="part A: every accepted input of the host corpus: no std/alloc identifier, every ::-rooted path rooted at ::core, every other identifier comes from the input, is bound locally (read through a real parser) or is a keyword / core-prelude / documented skeleton name; part B: generated conversions compiled by rustc inside a #![no_std] crate and run",
+   note="local variable names are outside the statement; part A in-process, part B through rustc",
+   technique=TECH_X + " + provenance analysis of the output through a real parser; rustc as the judge for no_std"),
 }
 NOT_YET = "check not built yet (work in progress; see DESIGN.md §19 build order)"
 
